@@ -3,10 +3,17 @@ content changed, so that Lake stays incremental).  Deliberately dumb: it reads t
 straight-line effect sequences with `ast`, and aborts (InfraError -> exit 2) on syntax it does not know."""
 import ast
 import os
+import sys
 
-import lean
+HERE = os.path.dirname(os.path.abspath(__file__))
+sys.path.insert(0, HERE)
+import lean  # noqa: E402
 
 GEN = os.path.join(lean.LEANDIR, "Cinco", "Generated")
+
+
+class Unknown(lean.InfraError):
+    pass
 
 
 def _write(name, text):
@@ -22,6 +29,170 @@ def _write(name, text):
     return False
 
 
+def _parse(repo, rel):
+    p = os.path.join(repo, "cincoconfig", rel)
+    try:
+        return ast.parse(open(p, encoding="utf-8").read(), p)
+    except (OSError, SyntaxError) as e:
+        raise Unknown("cannot parse %s: %s" % (p, e))
+
+
+def _class(mod, name):
+    for n in mod.body:
+        if isinstance(n, ast.ClassDef) and n.name == name:
+            return n
+    raise Unknown("class %s not found" % name)
+
+
+def _class_assign(cls, name):
+    for n in cls.body:
+        if isinstance(n, ast.Assign) and len(n.targets) == 1 and isinstance(n.targets[0], ast.Name) and n.targets[0].id == name:
+            return n.value
+        if isinstance(n, ast.AnnAssign) and isinstance(n.target, ast.Name) and n.target.id == name and n.value is not None:
+            return n.value
+    raise Unknown("%s.%s not found" % (cls.name, name))
+
+
+def _str_tuple(node, what):
+    if not isinstance(node, (ast.Tuple, ast.List)) or not all(isinstance(e, ast.Constant) and isinstance(e.value, str) for e in node.elts):
+        raise Unknown("%s is not a literal tuple of strings" % what)
+    return [e.value for e in node.elts]
+
+
+def lstr(s):
+    """Lean string literal"""
+    out = []
+    for c in s:
+        if c == '"' or c == "\\":
+            out.append("\\" + c)
+        elif c == "\n":
+            out.append("\\n")
+        elif 0x20 <= ord(c) < 0x7F:
+            out.append(c)
+        else:
+            out.append("\\u{%x}" % ord(c))
+    return '"' + "".join(out) + '"'
+
+
+def llist(xs):
+    return "[" + ", ".join(xs) + "]"
+
+
+def methods_of(cls):
+    return [n.name for n in cls.body if isinstance(n, (ast.FunctionDef, ast.AsyncFunctionDef))]
+
+
+def tables(repo):
+    bool_mod = _parse(repo, "fields/bool_field.py")
+    bf = _class(bool_mod, "BoolField")
+    true_v = _str_tuple(_class_assign(bf, "TRUE_VALUES"), "BoolField.TRUE_VALUES")
+    false_v = _str_tuple(_class_assign(bf, "FALSE_VALUES"), "BoolField.FALSE_VALUES")
+
+    bytes_mod = _parse(repo, "fields/bytes_field.py")
+    encs = _str_tuple(_class_assign(_class(bytes_mod, "BytesField"), "ENCODINGS"), "BytesField.ENCODINGS")
+
+    sec_mod = _parse(repo, "fields/secure_field.py")
+    algs_node = _class_assign(_class(sec_mod, "ChallengeField"), "ALGORITHMS")
+    if not isinstance(algs_node, ast.Dict):
+        raise Unknown("ChallengeField.ALGORITHMS is not a dict literal")
+    algs = []
+    import hashlib
+    for k, v in zip(algs_node.keys, algs_node.values):
+        if not (isinstance(k, ast.Constant) and isinstance(k.value, str) and isinstance(v, ast.Attribute)
+                and isinstance(v.value, ast.Name) and v.value.id == "hashlib"):
+            raise Unknown("ChallengeField.ALGORITHMS entry not of the form 'name': hashlib.name")
+        algs.append((k.value, v.attr, hashlib.new(v.attr).digest_size))
+
+    fm = _parse(repo, "formats/__init__.py")
+    formats = []
+    for n in ast.walk(fm):
+        # FORMATS: ... = [("json", JsonConfigFormat), ...]   and   FORMATS.append(("yaml", YamlConfigFormat))
+        if isinstance(n, (ast.Assign, ast.AnnAssign)):
+            tgt = n.targets[0] if isinstance(n, ast.Assign) else n.target
+            if isinstance(tgt, ast.Name) and tgt.id == "FORMATS" and isinstance(n.value, ast.List):
+                for e in n.value.elts:
+                    formats.append((e.elts[0].value, e.elts[1].id))
+        if isinstance(n, ast.Call) and isinstance(n.func, ast.Attribute) and n.func.attr == "append" \
+                and isinstance(n.func.value, ast.Name) and n.func.value.id == "FORMATS":
+            e = n.args[0]
+            formats.append((e.elts[0].value, e.elts[1].id))
+    if not formats:
+        raise Unknown("FORMATS not found")
+
+    # Schema._validate ignore_types
+    core_mod = _parse(repo, "core.py")
+    ignore = None
+    for n in ast.walk(_class(core_mod, "Schema")):
+        if isinstance(n, ast.Assign) and isinstance(n.targets[0], ast.Name) and n.targets[0].id == "ignore_types":
+            ignore = [e.id for e in n.value.elts]
+    if ignore is None:
+        raise Unknown("Schema._validate ignore_types not found")
+
+    # PortField defaults
+    net_mod = _parse(repo, "fields/net_field.py")
+    port = {}
+    for n in ast.walk(_class(net_mod, "PortField")):
+        if isinstance(n, ast.Call) and isinstance(n.func, ast.Attribute) and n.func.attr == "setdefault":
+            port[n.args[0].value] = n.args[1].value
+    if set(port) != {"min", "max"}:
+        raise Unknown("PortField defaults not found")
+    host = _class(net_mod, "HostnameField")
+
+    def regex_src(name):
+        v = _class_assign(host, name)
+        if not (isinstance(v, ast.Call) and isinstance(v.args[0], ast.Constant)):
+            raise Unknown("HostnameField.%s is not re.compile(<literal>)" % name)
+        return v.args[0].value
+
+    host_re, nb_re = regex_src("HOSTNAME_REGEX"), regex_src("NETBIOS_REGEX")
+
+    t = ["/- GENERATED by harness/extract.py from /repo on every run — do not edit. -/", "namespace Cinco.Generated", ""]
+    t.append("/-- BoolField.TRUE_VALUES (cincoconfig/fields/bool_field.py) -/")
+    t.append("def trueValues : List String := " + llist([lstr(x) for x in true_v]))
+    t.append("/-- BoolField.FALSE_VALUES -/")
+    t.append("def falseValues : List String := " + llist([lstr(x) for x in false_v]))
+    t.append("/-- BytesField.ENCODINGS -/")
+    t.append("def bytesEncodings : List String := " + llist([lstr(x) for x in encs]))
+    t.append("/-- ChallengeField.ALGORITHMS: (name, hashlib constructor, digest size read from hashlib at extraction time) -/")
+    t.append("def challengeAlgorithms : List (String × String × Nat) := " +
+             llist(["(%s, %s, %d)" % (lstr(a), lstr(b), c) for a, b, c in algs]))
+    t.append("/-- cincoconfig.formats.FORMATS: (registered name, class) in registration order -/")
+    t.append("def formats : List (String × String) := " + llist(["(%s, %s)" % (lstr(a), lstr(b)) for a, b in formats]))
+    t.append("/-- the `ignore_types` tuple of Schema._validate -/")
+    t.append("def validateIgnoreTypes : List String := " + llist([lstr(x) for x in ignore]))
+    t.append("def portMin : Int := %d" % port["min"])
+    t.append("def portMax : Int := %d" % port["max"])
+    t.append("/-- HostnameField.HOSTNAME_REGEX / NETBIOS_REGEX source text -/")
+    t.append("def hostnameRegexSrc : String := " + lstr(host_re))
+    t.append("def netbiosRegexSrc : String := " + lstr(nb_re))
+    t.append("")
+    t.append("end Cinco.Generated")
+    changed = _write("Tables.lean", "\n".join(t) + "\n")
+    return {"Tables.lean": {"changed": changed, "trueValues": true_v, "falseValues": false_v, "formats": [f[0] for f in formats],
+                            "algorithms": [a[0] for a in algs]}}
+
+
+def overrides(repo):
+    lm = _parse(repo, "fields/list_field.py")
+    dm = _parse(repo, "fields/dict_field.py")
+    lp = methods_of(_class(lm, "ListProxy"))
+    dp = methods_of(_class(dm, "DictProxy"))
+    t = ["/- GENERATED by harness/extract.py from /repo on every run — do not edit. -/", "namespace Cinco.Generated", "",
+         "/-- methods defined in the body of `class ListProxy` (cincoconfig/fields/list_field.py) -/",
+         "def listProxyMethods : List String := " + llist([lstr(x) for x in lp]),
+         "/-- methods defined in the body of `class DictProxy` (cincoconfig/fields/dict_field.py) -/",
+         "def dictProxyMethods : List String := " + llist([lstr(x) for x in dp]), "", "end Cinco.Generated"]
+    changed = _write("Overrides.lean", "\n".join(t) + "\n")
+    return {"Overrides.lean": {"changed": changed, "ListProxy": lp, "DictProxy": dp}}
+
+
 def run(repo):
     notes = {}
+    notes.update(tables(repo))
+    notes.update(overrides(repo))
     return notes
+
+
+if __name__ == "__main__":
+    import json
+    print(json.dumps(run(os.environ.get("VERIF_REPO", "/repo")), indent=1))
